@@ -209,6 +209,8 @@ def decide(prop_id: str, tier: str, seed: int) -> int:
         return 2
 
     broken: list[dict] = []  # obligations / ties that no longer check
+    for old in (VERIF / "replays").glob(f"{prop_id}-*.json"):
+        old.unlink()
 
     # 1. regenerate tables from the working tree
     for e in run_gens(getattr(mod, "GENS", [])):
